@@ -44,3 +44,10 @@ Qed.
 
 Lemma sat64_id x : in_i64 x -> sat64 x = x.
 Proof. unfold in_i64, sat64. lia. Qed.
+
+(* math/big Int.Div: Euclidean division (remainder in [0, |b|)); b = 0 panics in Go *)
+Definition ediv (a b : Z) : Z :=
+  if 0 <? b then a / b else if b <? 0 then - (a / (- b)) else 0.
+
+Lemma ediv_pos a b : 0 < b -> ediv a b = a / b.
+Proof. unfold ediv. intro H. destruct (0 <? b) eqn:E; [reflexivity | lia]. Qed.
